@@ -129,6 +129,17 @@ def main(tier: str) -> int:
                 chk.fail("predict_proba differs from evaluating the stored tree / network on X", d, {**feats, "clause": "predict"})
             if np.any(proba < 0) or not np.allclose(proba.sum(axis=1), 1.0, atol=1e-9):
                 chk.fail("predict_proba rows are not non-negative summing to 1", {**d, "row_sums": proba.sum(axis=1)[:3].tolist()}, {**feats, "clause": "proba"})
+            # one batch mixing rows of very different magnitude (un-scaled features, outliers): every row is still a
+            # distribution and equals what the same row gives when predicted alone
+            Xmix = np.vstack([Xn[:3], Xn[:3] * 1e4, -Xn[:2] * 3e3])
+            with np.errstate(all="ignore"):
+                pm = est.predict_proba(Xmix)
+                alone = np.vstack([est.predict_proba(Xmix[r:r + 1]) for r in range(len(Xmix))])
+            chk.count("mixed_magnitude_batch")
+            if np.any(~np.isfinite(pm)) or np.any(pm < 0) or not np.allclose(pm.sum(axis=1), 1.0, atol=1e-9) or not np.allclose(pm, alone, rtol=1e-9, atol=1e-12):
+                badr = int(np.argmax(np.abs(pm.sum(axis=1) - 1.0) + np.abs(pm - alone).sum(axis=1)))
+                chk.fail("predict_proba rows of a batch mixing magnitudes are not distributions equal to the per-row prediction",
+                         {**d, "row": Xmix[badr].tolist(), "in_batch": pm[badr].tolist(), "alone": alone[badr].tolist()}, {**feats, "clause": "proba_batch"})
             classes = sorted(set(y.tolist()))
             exp = [classes[int(np.argmax(r))] for r in proba]
             if [str(v) for v in pred] != [str(v) for v in exp] or [str(c) for c in est.classes_] != [str(c) for c in classes]:
@@ -245,6 +256,19 @@ def main(tier: str) -> int:
                 chk.count("reserved_rejected")
             except Exception as e:
                 chk.fail("a reserved optimizer argument is not rejected cleanly", {"estimator": cls.__name__, "argument": arg, "error": repr(e)[:160]}, {"estimator": cls.__name__, "clause": "reserved"})
+    # the GPNN estimators take TWO dictionaries: the weights optimizer's reserved arguments are rejected as well
+    Xc3, yc3 = E.data_classification(n=15, d=2, labels=("b", "a", "c"), seed=seed)
+    for arg in RESERVED_W:
+        for cls, (X, y) in ((GeneticProgrammingNeuralNetRegressor, (Xr, yr)), (GeneticProgrammingNeuralNetClassifier, (Xc3, yc3))):
+            try:
+                cls(n_iter=2, pop_size=4, weights_optimizer_args={arg: None, "iters": 2, "pop_size": 4}).fit(X, y)
+                chk.fail("an optimizer argument the estimator defines itself is accepted", {"estimator": cls.__name__, "dictionary": "weights_optimizer_args", "argument": arg},
+                         {"estimator": cls.__name__, "clause": "reserved"})
+            except AssertionError:
+                chk.count("reserved_rejected")
+            except Exception as e:
+                chk.fail("a reserved optimizer argument is not rejected cleanly", {"estimator": cls.__name__, "dictionary": "weights_optimizer_args", "argument": arg, "error": repr(e)[:160]},
+                         {"estimator": cls.__name__, "clause": "reserved"})
     try:
         GeneticProgrammingRegressor(n_iter=2, pop_size=6, optimizer_args={"elitism": False, "keep_history": True}, random_state=1).fit(Xr, yr)
         MLPEARegressor(n_iter=2, pop_size=6, hidden_layers=(2,), weights_optimizer_args={"elitism": False, "keep_history": True}, random_state=1).fit(Xr, yr)
